@@ -420,6 +420,54 @@ def check_circuit_history(env, acc):
                 acc.nontriv("circhist", hist)
 
 
+CHILD = """
+import hashlib, sys
+import numpy as np
+import lightworks as lw
+from lightworks import interferometers as itf
+from lightworks.interferometers import dists
+from mc import kernel
+seed = int(sys.argv[1])
+em = itf.ErrorModel()
+em.bs_reflectivity = dists.Gaussian(0.5, 0.03, min_value=0.46, max_value=0.53)
+em.loss = dists.TopHat(0.0, 0.2)
+em.phase_offset = dists.Gaussian(0, 0.05)
+c = lw.Unitary(kernel.haar(3, seed + 43)); c.herald(1, 0, 2)
+out = []
+for sd in (0, 5, 2 ** 31 + 7):
+    m = itf.Reck(em).map(c, seed=sd)
+    out.append(hashlib.sha256(np.round(m.U_full, 12).tobytes()).hexdigest()[:16])
+print("FP", *out)
+"""
+
+
+def check_cross_process(env, acc):
+    """'The same seed gives the same mapped circuit' also between interpreter sessions: the mapping is computed in
+    child processes that differ only in PYTHONHASHSEED and must come out identical."""
+    import os
+    import subprocess
+    import sys
+    fps = {}
+    procs = {}
+    for hs in ("1", "2", "12345"):
+        acc.tick("executions", 3); acc.tick("transitions")
+        e = dict(os.environ, PYTHONHASHSEED=hs)
+        procs[hs] = subprocess.Popen([sys.executable, "-W", "ignore", "-c", CHILD, str(env.seed)], stdout=subprocess.PIPE,
+                                     stderr=subprocess.PIPE, text=True, env=e)
+    for hs, pr in procs.items():
+        out, err = pr.communicate()
+        line = [l for l in out.splitlines() if l.startswith("FP ")]
+        if pr.returncode != 0 or not line:
+            acc.violation("mapping_fails", {"scenario": "cross_process", "hash_seed": hs, "seed": env.seed},
+                          {"stderr": err[-400:]})
+            return
+        fps[hs] = line[0]
+    if len(set(fps.values())) != 1:
+        acc.violation("seeded_mapping_differs_between_sessions", {"scenario": "cross_process", "seed": env.seed}, fps)
+    acc.state("cross_process")
+    acc.nontriv("cross_process")
+
+
 def herald_layouts(n):
     lay = [()]
     if n >= 2:
@@ -478,6 +526,7 @@ def run(tier, seed):
     check_resampling(env, e3)
     check_history(env, e3)
     check_circuit_history(env, e3)
+    check_cross_process(env, e3)
     acc.merge(e3)
     meta = {
         "rule": "default error model: every phased permutation matrix with phases in {1,-1,i} for n<=3 (and n=4: all "
@@ -503,7 +552,9 @@ def replay(w, acc):
     case = w["case"]
     env = Env(case.get("seed", 0))
     if "scenario" in case:
-        if case["scenario"] == "history_circuit":
+        if case["scenario"] == "cross_process":
+            check_cross_process(env, acc)
+        elif case["scenario"] == "history_circuit":
             check_circuit_history(env, acc)
         elif str(case["scenario"]).startswith("history"):
             check_history(env, acc)
